@@ -37,3 +37,122 @@ is_always_write = Contract(
 )
 
 CONTRACTS = [is_always_write]
+
+# =================================================================================================
+# MemoryBuilder.handle_write / handle_read: which circuit a write becomes and where a reader is attached.
+#   handle_write: the loop is folded into arithmetic feedback ONLY for an unconditional write whose data depends on the
+#                 cell (both callee verdicts required); every other write gets the two-gate cell.
+#   handle_read:  a reader is attached to the element that carries the cell's VALUE — the folded combinator, else the
+#                 multiplier, else the latch, else the hold gate — and is recorded as a read of that cell.
+# =================================================================================================
+import z3  # noqa: E402
+
+from pyvc.values import fresh_name  # noqa: E402
+
+LOG = []
+_OPQ = ty.TOpaque("x")
+
+
+def _mk_rec(tag, ret=None):
+    def eff(ex, a):
+        LOG.append(tag)
+        return ret
+    return eff
+
+
+_ALWAYS, _CANFOLD = z3.Bool("always_write"), z3.Bool("can_fold")
+always_c = Contract(qualname=MB + "_is_always_write", params={"self": _OPQ, "op": _OPQ}, effect=lambda ex, a: _ALWAYS, verify=False, note="proved above")
+canfold_c = Contract(qualname=MB + "_can_use_arithmetic_feedback", params={"self": _OPQ, "op": _OPQ, "module": _OPQ}, effect=lambda ex, a: _CANFOLD, verify=False,
+                     note="ASSUMED: true only if the written value is an arithmetic node that depends on a read of this cell")
+fold_c = Contract(qualname=MB + "_optimize_to_arithmetic_feedback", params={"self": _OPQ, "op": _OPQ, "module": _OPQ, "signal_graph": _OPQ}, effect=_mk_rec("fold"), verify=False,
+                  note="records the decision")
+std_c = Contract(qualname=MB + "_setup_standard_write", params={"self": _OPQ, "op": _OPQ, "module": _OPQ, "signal_graph": _OPQ}, effect=_mk_rec("standard"), verify=False,
+                 note="records the decision (topology proved in contracts.c03)")
+_MOD = ty.TObj("MemoryModule", only=("MemoryModule",), ftypes=(
+    ("_has_write", ty.Bool), ("optimization", ty.TOpt(ty.Str)), ("output_node_id", ty.TOpt(ty.Str)),
+    ("multiplier_combinator", ty.TOpt(ty.TObj("EntityPlacement", only=("EntityPlacement",)))),
+    ("latch_combinator", ty.TOpt(ty.TObj("EntityPlacement", only=("EntityPlacement",)))),
+    ("hold_gate", ty.TOpt(ty.TObj("EntityPlacement", only=("EntityPlacement",))))))
+
+
+def _write_post(a, res):
+    mods = [r for (_k, r) in a.self._modules.lookups]
+    if not mods or mods[-1] is None:
+        return LOG == []
+    want_fold = And(_ALWAYS, _CANFOLD)
+    if LOG == ["fold"]:
+        return want_fold
+    if LOG == ["standard"]:
+        return Not(want_fold)
+    return False
+
+
+handle_write = Contract(
+    qualname=MB + "handle_write",
+    params={"self": ty.TObj("MemoryBuilder", only=("MemoryBuilder",)), "op": ty.TObj("IRMemWrite", only=("IRMemWrite",)), "signal_graph": _OPQ},
+    requires=[("(reset)", lambda a: LOG.clear() or True)],
+    ensures=[("folded only for an unconditional write that depends on the cell; otherwise the two-gate cell; exactly one of them", _write_post)],
+    uses={"MemoryBuilder._is_always_write": always_c, "MemoryBuilder._can_use_arithmetic_feedback": canfold_c,
+          "MemoryBuilder._optimize_to_arithmetic_feedback": fold_c, "MemoryBuilder._setup_standard_write": std_c, "opaque.warning": "skip"},
+    dynamic_types={"self": {"_modules": ty.TObjMap(ty.Str, _MOD), "diagnostics": ty.TOpaque("diag")}, "op": {"memory_id": ty.Str}},
+    properties=("C04", "C03"), min_obligations=2, no_replay=True,
+)
+
+SRC = []
+
+
+def _set_source_eff(ex, a):
+    SRC.append((a.args[0], a.args[1]))
+
+
+set_source = Contract(qualname="dsl_compiler/src/layout/signal_graph.py::SignalGraph.set_source", params={"kwargs": _OPQ}, effect=_set_source_eff, verify=False, note="records the source")
+
+
+def _read_post(a, res):
+    mods = [r for (_k, r) in a.self._modules.lookups]
+    if not mods or mods[-1] is None:
+        return SRC == []
+    m = mods[-1]
+    if m.optimization is not None and not ops_is_false(m.optimization == "arithmetic_feedback"):
+        pass
+    # expected attachment, by priority
+    def attached(x):
+        return len(SRC) == 1 and SRC[0][0] is a.op.node_id and SRC[0][1] is x
+    folded = (m.optimization == "arithmetic_feedback") if m.optimization is not None else False
+    cases = []
+    if m.optimization is not None:
+        if m.output_node_id is None:
+            cases.append(Implies(folded, SRC == []))
+        else:
+            nonempty = z3.Length(m.output_node_id) > 0  # node ids are non-empty; an empty id attaches nothing
+            cases.append(Implies(And(folded, nonempty), attached(m.output_node_id)))
+            cases.append(Implies(And(folded, Not(nonempty)), SRC == []))
+    nf = Not(folded) if m.optimization is not None else True
+    if m.multiplier_combinator is not None:
+        cases.append(Implies(nf, attached(m.multiplier_combinator.ir_node_id)))
+    elif m.latch_combinator is not None:
+        cases.append(Implies(nf, attached(m.latch_combinator.ir_node_id)))
+    elif m.hold_gate is not None:
+        cases.append(Implies(nf, attached(m.hold_gate.ir_node_id)))
+    else:
+        cases.append(Implies(nf, SRC == []))
+    rs = a.self._read_sources
+    recorded = z3.And(z3.Select(rs.present, a.op.node_id), z3.Select(rs.vals, a.op.node_id) == a.op.memory_id)
+    return And(recorded, *cases)
+
+
+def ops_is_false(x):
+    return x is False
+
+
+handle_read = Contract(
+    qualname=MB + "handle_read",
+    params={"self": ty.TObj("MemoryBuilder", only=("MemoryBuilder",)), "op": ty.TObj("IRMemRead", only=("IRMemRead",)), "signal_graph": _OPQ},
+    requires=[("(reset)", lambda a: SRC.clear() or True)],
+    ensures=[("the reader is attached to the element carrying the cell's value (folded node, else multiplier, else latch, else hold gate) and recorded", _read_post)],
+    uses={"opaque.set_source": set_source, "opaque.warning": "skip"},
+    dynamic_types={"self": {"_modules": ty.TObjMap(ty.Str, _MOD), "_read_sources": ty.TDict(ty.Str, ty.Str), "diagnostics": ty.TOpaque("diag")},
+                   "op": {"memory_id": ty.Str, "node_id": ty.Str}},
+    properties=("C03", "C04", "C05"), min_obligations=3, no_replay=True,
+)
+CONTRACTS += [handle_write, handle_read, always_c, canfold_c, fold_c, std_c, set_source]
